@@ -70,6 +70,9 @@ func checkDescParse(c *mon.Ctx, stage string, idx int64, r *rand.Rand, ds []*ast
 	}
 	// trailing bytes after the loop must not be touched
 	in := append(append([]byte{}, b...), 0xAA, 0xBB, 0xCC)
+	if idx%2 == 1 {
+		in = reusedBuf("c14", in)
+	}
 	var got []*astits.Descriptor
 	var off int
 	var gerr error
